@@ -318,4 +318,10 @@ def controlling_switches(f, b):
                 others = [t for v, t in si[2].items() if t != tgt] + ([si[3]] if si[3] != tgt else [])
                 if any(not f.dominates(o, b) for o in others):
                     out.append((sb, val))
+        # the `otherwise` edge (e.g. the None side of `if let Some(..)`), labelled when it stands for exactly one variant
+        ot = si[3]
+        if ot is not None and ot not in si[2].values() and len(f.pred(ot)) == 1 and (ot == b or f.dominates(ot, b)):
+            if any(not f.dominates(t, b) for t in si[2].values()):
+                labels = si[4] if len(si) > 4 else []
+                out.append((sb, labels[0] if len(labels) == 1 else "otherwise"))
     return out
